@@ -83,7 +83,7 @@ theorem mapFind_mp {kt vt kt' vt' : Ty} {kvs kvs' : List (GoVal × GoVal)} (h : 
   | refl =>
     refine ⟨rfl, rfl, rfl, ?_⟩
     cases mapFind kvs k <;> simp [OptMP, MP.refl]
-  | map _ _ hv hk hn hm hp =>
+  | map _ _ hv hk hn hm hp ht =>
     refine ⟨rfl, rfl, by rw [hm.length_eq, hp.length_eq], ?_⟩
     rw [← mapFind_perm hp (keysOK_of_keys_eq hm.keys_eq hk) k]
     exact mapFind_mpv hm k
@@ -137,8 +137,8 @@ theorem propertyValue_unw_mp {u u' : GoVal} (hu : Unw u) (hu' : Unw u') (h : MP 
   | refl => exact LRelM.refl _
   | slice t hl => exact propList_mp hl name
   | array t hl => exact propList_mp hl name
-  | map kt vt hv hk hn hm hp =>
-    obtain ⟨_, _, hlen, hf⟩ := mapFind_mp (MP.map kt vt hv hk hn hm hp) (.str name)
+  | map kt vt hv hk hn hm hp ht =>
+    obtain ⟨_, _, hlen, hf⟩ := mapFind_mp (MP.map kt vt hv hk hn hm hp ht) (.str name)
     simp only
     cases kt <;> simp only <;> first
       | (cases h1 : mapFind _ (.str name) <;> cases h2 : mapFind _ (.str name) <;> rw [h1, h2] at hf <;> simp only [OptMP] at hf <;>
@@ -201,14 +201,14 @@ theorem indexValue_recv_mp {u u' : GoVal} (hu : Unw u) (hu' : Unw u') (h : MP u 
   | refl => exact LRelM.refl _
   | slice t hl => exact indexList_mp hl _
   | array t hl => exact indexList_mp hl _
-  | map kt vt hv hk hn hm hp =>
+  | map kt vt hv hk hn hm hp ht =>
     simp only
     split
     · exact LRelM.refl _
     · split
       · exact LRelM.refl _
       · exact LRelM.refl _
-      · next k _ => exact (mapFind_mp (MP.map kt vt hv hk hn hm hp) k).2.2.2.getD
+      · next k _ => exact (mapFind_mp (MP.map kt vt hv hk hn hm hp ht) k).2.2.2.getD
   | mapVals kt vt hv hn hm =>
     simp only
     split
@@ -363,7 +363,7 @@ theorem sortedMapEntries_mp {kt vt kt' vt' : Ty} {kvs kvs' : List (GoVal × GoVa
     · exact .inl ⟨_, _, rfl, rfl, sortedEntries_mpv hm⟩
   cases h with
   | refl => exact key (MPV.refl _)
-  | map _ _ hv hk hn hm hp =>
+  | map _ _ hv hk hn hm hp ht =>
     have hk' := keysOK_of_keys_eq hm.keys_eq hk
     rcases key hm with ⟨es, es', h1, h2, hs⟩ | ⟨w, h1, h2⟩
     · exact .inl ⟨es, es', h1, by rw [sortedMapEntries_perm hp.symm hk']; exact h2, hs⟩
@@ -394,9 +394,9 @@ theorem loopItems_mp_cases {v v' : GoVal} (h : MP v v') :
     | _ => exact .inr ⟨rfl, by simp⟩
   | slice t hl => exact .inl ⟨_, _, rfl, rfl, hl⟩
   | array t hl => exact .inl ⟨_, _, rfl, rfl, hl⟩
-  | map kt vt hv hk hn hm hp =>
+  | map kt vt hv hk hn hm hp ht =>
     simp only [loopItems]
-    rcases sortedMapEntries_mp (MP.map kt vt hv hk hn hm hp) with ⟨es, es', h1, h2, hs⟩ | ⟨w, h1, h2⟩
+    rcases sortedMapEntries_mp (MP.map kt vt hv hk hn hm hp ht) with ⟨es, es', h1, h2, hs⟩ | ⟨w, h1, h2⟩
     · rw [h1, h2]; exact .inl ⟨_, _, rfl, rfl, mkPairs_mpl hs⟩
     · rw [h1, h2]; exact .inr ⟨rfl, by simp⟩
   | mapVals kt vt hv hn hm =>
